@@ -7,6 +7,7 @@ package main
 // written from their documentation (see libTransfer).
 
 import (
+	"unicode"
 	"fmt"
 	"go/constant"
 	"go/token"
@@ -527,6 +528,29 @@ func libTransfer(fn *ssa.Function, args []fval) (fval, error) {
 			return constant.Int64Val(args[i].k)
 		}
 		return 0, false
+	}
+	// Unicode category predicates on a known rune: decided with the unicode package's own tables (the documented categories)
+	if r, ok := argInt(0); ok && r >= 0 && len(args) == 1 {
+		var f func(rune) bool
+		switch name {
+		case "unicode.IsSpace":
+			f = unicode.IsSpace
+		case "unicode.IsDigit":
+			f = unicode.IsDigit
+		case "unicode.IsNumber":
+			f = unicode.IsNumber
+		case "unicode.IsLetter":
+			f = unicode.IsLetter
+		case "unicode.IsUpper":
+			f = unicode.IsUpper
+		case "unicode.IsLower":
+			f = unicode.IsLower
+		case "unicode.IsPunct":
+			f = unicode.IsPunct
+		}
+		if f != nil {
+			return fval{k: constant.MakeBool(f(rune(r))), t: boolT}, nil
+		}
 	}
 	switch name {
 	case "unicode.IsSpace", "unicode.IsDigit", "unicode.IsLetter", "unicode.IsUpper", "unicode.IsLower", "unicode.IsPunct", "unicode.IsNumber", "unicode.IsControl", "unicode.IsGraphic", "unicode.IsPrint", "unicode.IsSymbol", "unicode.IsMark":
